@@ -656,6 +656,35 @@ def run(F, rep, tier):
              'methods) - a source such as iterate(x, f) repeats its error on every call, so a wrapper that passes the error on without '
              'latching it makes `len` (and unpacking, `only`, zip\'s length checks) loop forever')
     n12 = 0
+
+    def _some_err(b_):
+        out = []
+        for bb, s_ in b_.aggregates(b_.reach):
+            if s_[2][4] != 'Some':
+                continue
+            pay = set()
+            for o in s_[2][5]:
+                pay |= origins(b_, o)
+            if any(o[0] == 'agg' and o[2] == 'Err' for o in pay):
+                out.append(bb)
+        return out
+    # helpers that build the Some(Err(_)) for a stream (extracted by a refactoring): crate functions returning Option<NRes<Obj>> that are
+    # not trait methods; such a helper latches through parameter k when it stores through that &mut parameter
+    helpers = {}
+    for p_, f_ in F.fns.items():
+        if p_.startswith('<') or not F.has_fn(p_) or not re.match(r'std::option::Option<std::result::Result<core::Obj, core::NErr>>$', str(f_.get('output'))):
+            continue
+        hb = F.body(p_)
+        if not _some_err(hb):
+            continue
+        ks = set()
+        for bb in hb.reach:
+            for s_ in hb.stmts(bb):
+                if s_[0] == 'a' and len(s_[1]) >= 2 and s_[1][1] == '*' and 1 <= s_[1][0] <= hb.raw.get('argc', 0) \
+                        and str((f_.get('inputs') or [])[s_[1][0] - 1]).startswith('&mut '):
+                    ks.add(s_[1][0] - 1)
+        helpers[p_] = ks
+    rep.extra['error_exit_helpers'] = {k_: sorted(v_) for k_, v_ in helpers.items()}
     for imp in [i for i in F.impls if i['trait'] == 'core::Stream']:
         ty = imp['self_ty']
         its = [i for i in F.impls if i['trait'] == 'std::iter::Iterator' and i['self_ty'] == ty]
@@ -669,20 +698,19 @@ def run(F, rep, tier):
             for s_ in nb.stmts(bb):
                 if s_[0] == 'a' and len(s_[1]) >= 3 and s_[1][0] == 1 and s_[1][1] == '*':
                     latch.add(bb)
+
+        def _from_self(op):
+            return any(r_[0] == 'param' and r_[1] == 1 for r_ in nb.roots(op))
         for c in nb.calls:
             fn_ = F.fns.get(c.target)
-            if fn_ and c.args and str((fn_.get('inputs') or [''])[0]).startswith('&mut ' + base) and any(r_[0] == 'param' and r_[1] == 1 for r_ in nb.roots(c.args[0])):
+            if fn_ and c.args and str((fn_.get('inputs') or [''])[0]).startswith('&mut ' + base) and _from_self(c.args[0]):
+                latch.add(c.bb)
+            if c.target in helpers and any(k_ < len(c.args) and _from_self(c.args[k_]) for k_ in helpers[c.target]):
                 latch.add(c.bb)
         rets = {i for i in nb.reach if nb.term(i)[0] == 'ret'}
+        exits = _some_err(nb) + [c.bb for c in nb.calls if c.target in helpers]
         k = 0
-        for bb, s_ in nb.aggregates(nb.reach):
-            if s_[2][4] != 'Some':
-                continue
-            pay = set()
-            for o in s_[2][5]:
-                pay |= origins(nb, o)
-            if not any(o[0] == 'agg' and o[2] == 'Err' for o in pay):
-                continue
+        for bb in exits:
             k += 1
             n12 += 1
             if bb in latch or nb.every_path_passes(0, {bb}, latch) or nb.every_path_passes(bb, rets, latch):
